@@ -100,7 +100,9 @@ Proof.
   assert (U1 : to_u8 b1 = b1) by (unfold to_u8; apply Z.mod_small; lia).
   assert (P0 : to_u8 (Z.of_nat pos + 0) = Z.of_nat pos) by (unfold to_u8; rewrite Z.add_0_r; apply Z.mod_small; lia).
   assert (P1 : to_u8 (Z.of_nat pos + 1) = Z.of_nat (S pos)) by (unfold to_u8; rewrite Z.mod_small; lia).
-  rewrite U0, U1, P0, P1.
+  assert (P0' : to_u8 (Z.of_nat pos) = Z.of_nat pos) by (unfold to_u8; apply Z.mod_small; lia).
+  rewrite ?U0, ?U1, ?P0, ?P1, ?P0'.
+  replace (Z.of_nat pos + 1) with (Z.of_nat (S pos)) by lia. rewrite ?Z.add_0_r.
   rewrite (mid_update_single conv Hc t b0 ei ed pos prog H0 He Hd ltac:(lia)).
   destruct (update_single conv t b0 ei ed pos prog) as [[t1 c1]|] eqn:E1.
   2:{ unfold update_single in E1. destruct (nth_error t pos) eqn:En; [|apply nth_error_None in En; lia].
@@ -110,7 +112,7 @@ Proof.
   destruct (update_single conv t1 b1 ei ed (S pos) prog) as [[t2 c2]|] eqn:E2.
   2:{ unfold update_single in E2. destruct (nth_error t1 (S pos)) eqn:En; [|apply nth_error_None in En; lia].
       repeat match type of E2 with context [if ?c then _ else _] => destruct c end; discriminate. }
-  destruct c1, c2; cbn; reflexivity.
+  destruct c1, c2; cbn [b2z orb Z.lor]; decide_atoms; first [reflexivity | exfalso; lia].
 Qed.
 
 (* ---------- rdsparser_parser_update_string: the correction thresholds of the text ---------- *)
@@ -145,34 +147,53 @@ Theorem mid_parser_update_string : forall conv, (forall x, 32 <= x < 256 -> m_st
     (b2z (snd r), contents (get_text sl (fst r)), levels (get_text sl (fst r))).
 Proof.
   intros conv Hc sl s blk d0 d1 d2 d3 e0 e1 e2 e3 pos t w edat Hb Hw He1 Hed Hp Hq.
-  unfold m_parser_update_string, upd_string. cbv zeta.
-  fold w edat.
+  unfold m_parser_update_string. cbv zeta.
   assert (C0 : nth (Z.to_nat 0) (nth (Z.to_nat (text_index (tid_of sl))) (corr_tab s) []) 0 = corr s (tid_of sl) INFO)
     by (destruct sl; reflexivity).
   assert (C1 : nth (Z.to_nat 1) (nth (Z.to_nat (text_index (tid_of sl))) (corr_tab s) []) 0 = corr s (tid_of sl) DATA)
     by (destruct sl; reflexivity).
   assert (P : nth (Z.to_nat (text_index (tid_of sl))) (prog_tab s) 0 = b2z (prog s (tid_of sl)))
     by (destruct sl; reflexivity).
-  rewrite C0, C1, P.
-  destruct ((e1 <=? corr s (tid_of sl) INFO) && (edat <=? corr s (tid_of sl) DATA)); [|reflexivity].
-  assert (B0 : 0 <= Z.shiftr w 8 < 256).
-  { rewrite Z.shiftr_div_pow2 by lia. change (2 ^ 8) with 256. split; [apply Z.div_pos; lia|apply Z.div_lt_upper_bound; lia]. }
-  assert (B1 : to_u8 w = lo_byte w).
-  { unfold to_u8, lo_byte. change 255 with (Z.ones 8). rewrite Z.land_ones by lia. reflexivity. }
-  assert (B1r : 0 <= lo_byte w < 256) by (rewrite <- B1; unfold to_u8; apply Z.mod_pos_bound; lia).
-  (* the two bytes go through `char block[2]`: to_s8, and back to uint8_t in the callee *)
-  rewrite su_norm. rewrite !u8_s8 by (rewrite ?B1; assumption). rewrite B1.
-  rewrite (mid_string_update conv Hc t (Z.shiftr w 8) (lo_byte w) e1 edat pos (prog s (tid_of sl))
-             B0 B1r He1 Hed Hp Hq).
-  unfold hi_byte. fold t.
-  destruct (string_update conv t (Z.shiftr w 8) (lo_byte w) e1 edat pos (prog s (tid_of sl))) as [[t' chg]|] eqn:E.
-  - cbn [fst snd]. destruct sl; reflexivity.
-  - exfalso. unfold string_update in E.
-    destruct (update_single conv t (Z.shiftr w 8) e1 edat pos (prog s (tid_of sl))) as [[t1 c1]|] eqn:E1.
-    + pose proof (update_single_length _ _ _ _ _ _ _ _ _ E1) as L1.
-      destruct (update_single conv t1 (lo_byte w) e1 edat (S pos) (prog s (tid_of sl))) as [[t2 c2]|] eqn:E2; [discriminate|].
-      unfold update_single in E2. destruct (nth_error t1 (S pos)) eqn:En; [|apply nth_error_None in En; lia].
-      repeat match type of E2 with context [if ?c then _ else _] => destruct c end; discriminate.
-    + unfold update_single in E1. destruct (nth_error t pos) eqn:En; [|apply nth_error_None in En; lia].
-      repeat match type of E1 with context [if ?c then _ else _] => destruct c end; discriminate.
+  rewrite ?C0, ?C1, ?P.
+  (* whatever way the C code builds the two bytes of the block (casts, masks, shifts): compared
+     with the model's hi_byte / lo_byte on all 65536 values of the block *)
+  assert (K : forall x, 0 <= x < 65536 -> 0 <= hi_byte x < 256 /\ 0 <= lo_byte x < 256).
+  { intros x Hx. unfold hi_byte, lo_byte. rewrite Z.shiftr_div_pow2 by lia. change (2 ^ 8) with 256.
+    change 255 with (Z.ones 8). rewrite Z.land_ones by lia. change (2 ^ 8) with 256.
+    split; [split; [apply Z.div_pos; lia|apply Z.div_lt_upper_bound; lia]|apply Z.mod_pos_bound; lia]. }
+  destruct (K w Hw) as [B0 B1r].
+  pose proof (mid_string_update conv Hc t (hi_byte w) (lo_byte w) e1 edat pos (prog s (tid_of sl)) B0 B1r He1 Hed Hp Hq) as M.
+  unfold upd_string. fold t. fold t in M.
+  destruct (string_update conv t (hi_byte w) (lo_byte w) e1 edat pos (prog s (tid_of sl))) as [[t' chg]|] eqn:E.
+  2:{ exfalso. unfold string_update in E.
+      destruct (update_single conv t (hi_byte w) e1 edat pos (prog s (tid_of sl))) as [[t1 c1]|] eqn:E1.
+      + pose proof (update_single_length _ _ _ _ _ _ _ _ _ E1) as L1.
+        destruct (update_single conv t1 (lo_byte w) e1 edat (S pos) (prog s (tid_of sl))) as [[t2 c2]|] eqn:E2; [discriminate|].
+        unfold update_single in E2. destruct (nth_error t1 (S pos)) eqn:En; [|apply nth_error_None in En; lia].
+        repeat match type of E2 with context [if ?c then _ else _] => destruct c end; discriminate.
+      + unfold update_single in E1. destruct (nth_error t pos) eqn:En; [|apply nth_error_None in En; lia].
+        repeat match type of E1 with context [if ?c then _ else _] => destruct c end; discriminate. }
+  subst w edat.
+  destruct Hb as [-> | ->]; change (Z.to_nat 2) with 2%nat in *; change (Z.to_nat 3) with 3%nat in *; cbn [nth] in *;
+    repeat match goal with
+           | |- context [m_string_update _ _ ?A0 ?A1 _ _ _ _ _] =>
+             lazymatch A0 with hi_byte _ => fail | _ => idtac end;
+             rewrite (su_norm _ _ A0 A1);
+             let E0 := fresh "E0" in let E1 := fresh "E1" in
+             (assert (E0 : to_u8 A0 = hi_byte d2) by (clear - Hw; apply Z.eqb_eq; revert d2 Hw;
+                match goal with |- forall v, 0 <= v < 65536 -> (@?Q v) = true =>
+                  intros v Hv; exact (all_from_spec (Z.to_nat 65536) 0 Q ltac:(vm_compute; reflexivity) v ltac:(rewrite Z2Nat.id; lia)) end);
+              assert (E1 : to_u8 A1 = lo_byte d2) by (clear - Hw; apply Z.eqb_eq; revert d2 Hw;
+                match goal with |- forall v, 0 <= v < 65536 -> (@?Q v) = true =>
+                  intros v Hv; exact (all_from_spec (Z.to_nat 65536) 0 Q ltac:(vm_compute; reflexivity) v ltac:(rewrite Z2Nat.id; lia)) end))
+             || (assert (E0 : to_u8 A0 = hi_byte d3) by (clear - Hw; apply Z.eqb_eq; revert d3 Hw;
+                match goal with |- forall v, 0 <= v < 65536 -> (@?Q v) = true =>
+                  intros v Hv; exact (all_from_spec (Z.to_nat 65536) 0 Q ltac:(vm_compute; reflexivity) v ltac:(rewrite Z2Nat.id; lia)) end);
+              assert (E1 : to_u8 A1 = lo_byte d3) by (clear - Hw; apply Z.eqb_eq; revert d3 Hw;
+                match goal with |- forall v, 0 <= v < 65536 -> (@?Q v) = true =>
+                  intros v Hv; exact (all_from_spec (Z.to_nat 65536) 0 Q ltac:(vm_compute; reflexivity) v ltac:(rewrite Z2Nat.id; lia)) end));
+             rewrite E0, E1; clear E0 E1
+           end;
+    rewrite ?M; cbn [fst snd];
+    decide_atoms; cbn [fst snd b2z]; first [destruct sl; reflexivity | exfalso; lia].
 Qed.
